@@ -24,7 +24,35 @@ fn profile() -> Profile {
     p.w = [40, 18, 16, 3, 1, 2, 2, 3, 1, 6, 2, 6];
     p.closures = 30;
     p.cells = 35;
+    // a cell whose type is inferred from a union-typed initial value gets its type from the *actual* value on the
+    // incremental route (recorded finding, judged on the fixed INFERRED_CELL histories below); not generated
+    p.inferred_union_cells = false;
     p
+}
+
+/// histories on which the run-time type of a cell created by `mut e` depends on the route (see DESIGN.md section 5)
+const INFERRED_CELL: &[&[&str]] = &[
+    &["hi := (v: int) -> int { return v };", "c2 := [5, \"s\"][hi(0)];", "c := mut (c2);", "if x: mut int = c { 1 } else { 2 }"],
+    &["hi := (v: int) -> int { return v };", "c2 := [5, 2.5][hi(0)];", "c := mut (c2);", "c"],
+    &["f := (v: int|string) -> int|string { return v };", "u := f(3);", "cs := [mut (u)];", "cs[0]"],
+];
+
+fn check_inferred_cells(rep: &mut Report) {
+    for groups in INFERRED_CELL {
+        let groups: Vec<String> = groups.iter().map(|g| g.to_string()).collect();
+        let inc = run_groups(&groups, &[]);
+        let bat = run_groups(&[groups.join(" ")], &[]);
+        rep.evaluations += 2;
+        rep.count("inferred-cell-histories");
+        match (inc.last(), bat.last()) {
+            (Some(Step::Done(a, _)), Some(Step::Done(b, _))) if a != b => {
+                let payload = format!("#class inferred-cell-type\n{}", groups.join("\n"));
+                rep.violation("c17:repl-vs-batch:inferred-cell-type", &format!("incremental {a} vs batch {b} :: {}", groups.join(" | ")), "c17-text", &payload);
+            }
+            (Some(Step::Done(..)), Some(Step::Done(..))) => {}
+            other => rep.violation("c17:repl-vs-batch:inferred-cell-type:not-completed", &format!("{other:?} :: {}", groups.join(" | ")), "c17-text", &groups.join("\n")),
+        }
+    }
 }
 
 /// top-level statements (without the final observing expression) and the names they declare
@@ -502,6 +530,9 @@ pub fn run(cfg: &Cfg, rep: &mut Report) {
             rep.notes.push(format!("host function not accepted: {src}"));
         }
     }
+    if cfg.shard == 0 {
+        check_inferred_cells(rep);
+    }
     let n = cfg.per_shard(20_000, 800_000);
     for i in 0..n {
         if i % 8 == 0 {
@@ -550,6 +581,9 @@ pub fn replay(kind: &str, payload: &str, rep: &mut Report) {
         return;
     }
     // payload: REPL inputs, one per line; compare with the batch run of their concatenation
+    let class = payload.lines().find_map(|l| l.strip_prefix("#class ")).map(|c| c.trim().to_string());
+    let payload_owned: String = payload.lines().filter(|l| !l.starts_with("#class ")).collect::<Vec<_>>().join("\n");
+    let payload = payload_owned.as_str();
     let groups: Vec<String> = payload.lines().filter(|l| !l.trim().is_empty() && !l.starts_with(PRELUDE.lines().next().unwrap_or("#"))).map(|l| l.to_string()).collect();
     let names: Vec<String> = Vec::new();
     let inc = run_groups(&groups, &names);
@@ -559,7 +593,11 @@ pub fn replay(kind: &str, payload: &str, rep: &mut Report) {
     rep.notes.push(format!("batch: {:?}", bat.last()));
     if let (Some(Step::Done(a, _)), Some(Step::Done(b, _))) = (inc.last(), bat.last()) {
         if a != b {
-            rep.violation("c17:repl-vs-batch:last-result", &format!("incremental {a} vs batch {b}"), "c17-text", payload);
+            let key = match &class {
+                Some(c) => format!("c17:repl-vs-batch:{c}"),
+                None => "c17:repl-vs-batch:last-result".to_string(),
+            };
+            rep.violation(&key, &format!("incremental {a} vs batch {b}"), "c17-text", payload);
         }
     }
 }
